@@ -183,6 +183,11 @@ Section Stmt.
     intro E. subst c. unfold ch_hash in Hh. discriminate.
   Qed.
 
+  Lemma lstrip_s_app : forall x, lstrip (s ++ x) = s ++ x.
+  Proof.
+    intro x. destruct stmt_parts as (c & q & E & Hsp & _). rewrite E. cbn [app]. apply lstrip_nonspace. exact Hsp.
+  Qed.
+
   Lemma line_indent : indent_of (w ++ s ++ tr) = indent_of w.
   Proof.
     destruct stmt_parts as (c & q & -> & Hsp & _). rewrite (indent_of_ws_app w _ Hw).
@@ -197,16 +202,14 @@ Section Stmt.
   Lemma line_strip_prefix : exists y, strip (w ++ s ++ tr) = s ++ y.
   Proof.
     destruct stmt_parts as (c & q & E & Hsp & _ & Hr & _). unfold strip.
-    rewrite (lstrip_blank_app w _ (ws_only_blank w Hw)). rewrite E at 1. cbn [app].
-    rewrite (lstrip_nonspace c _ Hsp). change (c :: q ++ tr) with ((c :: q) ++ tr). rewrite <- E.
+    rewrite (lstrip_blank_app w _ (ws_only_blank w Hw)). rewrite lstrip_s_app.
     apply rstrip_app_keep. exact Hr.
   Qed.
 
   Lemma line_strip_blank_trail : is_blank tr = true -> strip (w ++ s ++ tr) = s.
   Proof.
     intro Hb. destruct stmt_parts as (c & q & E & Hsp & _ & Hr & _). unfold strip.
-    rewrite (lstrip_blank_app w _ (ws_only_blank w Hw)). rewrite E at 1. cbn [app].
-    rewrite (lstrip_nonspace c _ Hsp). change (c :: q ++ tr) with ((c :: q) ++ tr). rewrite <- E.
+    rewrite (lstrip_blank_app w _ (ws_only_blank w Hw)). rewrite lstrip_s_app.
     rewrite (rstrip_app_blank s tr Hb). exact Hr.
   Qed.
 
@@ -227,13 +230,7 @@ Section Stmt.
         cbn [app rstrip]. rewrite IH. destruct (r ++ s) eqn:Ers.
         - destruct r; [cbn in Ers; subst s; discriminate|discriminate].
         - cbn [is_nil]. rewrite andb_false_r. reflexivity. }
-      rewrite Hrs. rewrite (lstrip_blank_app w _ (ws_only_blank w Hw)). rewrite E at 1.
-      rewrite (lstrip_nonspace c _ Hsp). rewrite <- E.
-      (* rstrip of an already r-stripped text *)
-      assert (Hrr : rstrip (rstrip (w ++ s ++ b)) = rstrip (w ++ s ++ b)).
-      { clear. induction (w ++ s ++ b) as [|x r IH]; [reflexivity|].
-        cbn [rstrip]. destruct (is_space x && is_nil (rstrip r)) eqn:Ex; [reflexivity|].
-        cbn [rstrip]. rewrite IH, Ex. reflexivity. }
-      exact Hr.
+      rewrite Hrs. rewrite (lstrip_blank_app w _ (ws_only_blank w Hw)).
+      rewrite <- (app_nil_r s) at 1. rewrite lstrip_s_app. rewrite app_nil_r. exact Hr.
   Qed.
 End Stmt.
